@@ -162,13 +162,14 @@ add("C20", "pooled write buffers",
 
 add("C11", "concurrency contract",
     [H("vfH_conc_frames", ["conc-frames-end"], 400, {"preempt": 1}), H("vfH_conc_close", ["conc-close-end"]), H("vfH_conc_shared", ["conc-shared-end"]),
-     H("vfH_close_sched", ["close-sched-end"], 300), H("vfH_deadline", ["deadline-end"]), H("vfH_conc_fault", ["conc-fault-end"]), TWIN("vfH_conc_frames", {"preempt": 1}), TWIN("vfH_conc_shared")],
+     H("vfH_close_sched", ["close-sched-end"], 300), H("vfH_deadline", ["deadline-end"]), H("vfH_conc_fault", ["conc-fault-end"]), H("vfH_wc_blocked", ["wc-blocked-end"]), TWIN("vfH_conc_frames", {"preempt": 1}), TWIN("vfH_conc_shared")],
     [H("vfH_conc_frames", ["conc-frames-end"], 1800, {"preempt": 2, "tier": 1}), H("vfH_close_sched", ["close-sched-end"], 900, {"preempt": 3}), H("vfH_conc_shared", ["conc-shared-end"], 900, {"preempt": 3}), H("vfH_conc_fault", ["conc-fault-end"], 900, {"preempt": 3, "tier": 1})],
     ["goroutines: 1 writer (a 43-byte message in 3 frames, on a server one frame written as two buffers), 1 reader (ping answered by the default handler, then a data message), 1 WriteControl caller (zero deadline / a deadline that may expire while the writer holds the connection / two calls), or Close(); 2 connections sharing one PreparedMessage and one buffer pool",
      "schedules: scheduling points at every transport operation (which may block arbitrarily long), goroutine start/end and every blocking lock or channel operation; context bound: quick 1 preemption (conc_frames) / 2 (others), thorough 2-3; timers may fire at any scheduling point after they were armed",
      "transport fault under concurrency (conc_fault): a data writer and a WriteControl caller (zero / far deadline) run concurrently while write-side operation 0..1 (thorough 0..3) fails in one of 3 ways: nothing reaches the transport afterwards on any schedule, one of the calls reports it, later calls fail",
+     "connection held for ever (wc_blocked): the write lock is taken and never released, WriteControl (ping / pong / close) with a deadline 1..3 ms ahead must return a timeout error (a wait without a timer shows up as a deadlock), its wait ends by the deadline on the model clock, nothing is written, the connection works once the lock is released",
      "data races: vector-clock happens-before detector over every heap cell access of the interpreted code on every explored schedule; a reported race is replayed natively under go test -race"],
-    ["'returns by that deadline' as a real-time bound: time is abstracted (the timeout path is taken whenever the timer wins, writes nothing and does not poison); what is decided is that the wait WriteControl gave up on was armed to end no later than its deadline on the model clock (vfTimerBy), not that a WriteControl which has no timer at all returns in time", "more than 3 library goroutines + main, more preemptions than the bound", "races inside the real compress/flate pools (modelled)"],
+    ["'returns by that deadline' as a real-time bound: time is abstracted (the timeout path is taken whenever the timer wins, writes nothing and does not poison); what is decided is that the wait WriteControl gave up on was armed to end no later than its deadline on the model clock (vfTimerBy), and that with the connection held for ever it does come back with a timeout (wc_blocked); with a holder that lets go later than the deadline a WriteControl that waits without a timer is still not caught", "more than 3 library goroutines + main, more preemptions than the bound", "races inside the real compress/flate pools (modelled)"],
     ASSUME_COMMON[:1] + [CLOCK, "preemption only at scheduling points is sound because the explored executions are checked to be data-race-free"], STUB_COMMON + [STUB_FLATE],
     LV + "Interleavings are enumerated by a nondeterministic scheduler inside the symbolic executor (context-bounded); data stay symbolic on every interleaving; schedule counterexamples are replayed natively with a token-passing scheduler.",
     "trusted: engine translation, the scheduler's choice of scheduling points, the happens-before model of channels / sync.Mutex / sync.Once / pools")
